@@ -308,8 +308,91 @@ def _hoist_constant_else(fn):
                 i += 1
 
 
+def _negate(e):
+    return _ExprNF().visit(ast.copy_location(ast.UnaryOp(op=ast.Not(), operand=e), e))
+
+
+def _empty_then(fn):
+    """E14: `if T: pass else: B` -> `if not T: B` (negation in normal form)."""
+    for n in ast.walk(fn):
+        if isinstance(n, ast.If) and n.orelse and all(isinstance(s, ast.Pass) for s in n.body):
+            n.test = _negate(n.test)
+            n.body, n.orelse = n.orelse, []
+
+
+def _thread_flag_ifs(fn):
+    """E15: a boolean that is bound in every branch of an `if` and tested once, right after it, by an `if` whose
+    body is a single jump (return / raise / continue / break) is eliminated:
+
+        if A: f = K            if A: [if K: J]
+        else: S; f = E   ==>   else: S; if E: J          (J duplicated; `if False: J` dropped, `if True: J` -> J)
+        if f: J
+    This is the shape a helper that reports its verdict through a boolean takes once it is inlined."""
+    st, ld = _name_counts(fn)
+    changed = True
+    while changed:
+        changed = False
+        for n in ast.walk(fn):
+            for b in _blocks(n):
+                for i in range(len(b) - 1):
+                    a, t = b[i], b[i + 1]
+                    if not (isinstance(a, ast.If) and a.orelse and isinstance(t, ast.If) and not t.orelse and len(t.body) == 1
+                            and isinstance(t.body[0], (ast.Return, ast.Raise, ast.Continue, ast.Break))):
+                        continue
+                    neg = False
+                    tt = t.test
+                    if isinstance(tt, ast.UnaryOp) and isinstance(tt.op, ast.Not):
+                        tt, neg = tt.operand, True
+                    if not isinstance(tt, ast.Name):
+                        continue
+                    f = tt.id
+                    if ld.get(f, 0) != 1:
+                        continue
+
+                    def leaves(block, acc):
+                        """Collect (block, binding statement) for every leaf of the if-tree that ends `block`."""
+                        s_ = block[-1] if block else None
+                        if isinstance(s_, ast.Assign) and len(s_.targets) == 1 and isinstance(s_.targets[0], ast.Name) and s_.targets[0].id == f:
+                            acc.append((block, s_))
+                            return True
+                        if isinstance(s_, ast.If) and s_.orelse:
+                            return leaves(s_.body, acc) and leaves(s_.orelse, acc)
+                        return False
+                    acc = []
+                    if not (leaves(a.body, acc) and leaves(a.orelse, acc)) or st.get(f, 0) != len(acc):
+                        continue
+                    import copy as _copy
+
+                    def copy_stmt(s_):
+                        return _copy.deepcopy(s_)
+
+                    def rewrite(block, bind):
+                        v = bind.value
+                        cond = _negate(v) if neg else v
+                        block.pop()
+                        if isinstance(cond, ast.Constant):
+                            if bool(cond.value):
+                                block.append(copy_stmt(t.body[0]))
+                        else:
+                            block.append(ast.copy_location(ast.If(test=cond, body=[copy_stmt(t.body[0])], orelse=[]), bind))
+                        if not block:
+                            block.append(ast.copy_location(ast.Pass(), bind))
+                    for (blk_, bind_) in acc:
+                        rewrite(blk_, bind_)
+                    del b[i + 1]
+                    st, ld = _name_counts(fn)
+                    changed = True
+                    break
+                if changed:
+                    break
+            if changed:
+                break
+
+
 def _canon_function(fn):
     _split_withs(fn)
+    _thread_flag_ifs(fn)
+    _empty_then(fn)
     _ExprNF().visit(fn)
     _split_tuple_assigns(fn)
     _hoist_constant_else(fn)
